@@ -14,12 +14,38 @@ Local Open Scope string_scope.
 CODE = ['Zero', 'Unk', 'Una', 'One', 'PP', 'Rise', 'Fall', 'NP']
 
 
-def run_logicsim(c, m, stim_mv, reuse=False, strip=False, cycles=None, inject_cb=None):
-    """stim_mv: (s_len, sims) codes.  Returns (sim object, s[1] as mv (s_len, sims), s[0] as mv)."""
+WARM = {'on': False, 'count': 0}     # set by a check for a share of its cases: every LogicSim below first simulates another batch
+
+
+def warm_stimulus(stim_mv, m):
+    """the batch a USED simulator has simulated before: the complement-ish of the real stimulus (every 0/1 flipped, so that every
+    signal that is 0 in the real round was very likely 1 before), unknowns kept"""
+    w = stim_mv.copy()
+    w[stim_mv == 0] = 3
+    w[stim_mv == 3] = 0
+    if m == 8:
+        w[stim_mv == 5] = 6
+        w[stim_mv == 6] = 5
+    return w
+
+
+def run_logicsim(c, m, stim_mv, reuse=False, strip=False, cycles=None, inject_cb=None, warm=None):
+    """stim_mv: (s_len, sims) codes.  Returns (sim object, s[1] as mv (s_len, sims), s[0] as mv).
+    warm (or WARM['on']): the simulator object first simulates ANOTHER batch (assign, propagate, capture; two clock cycles when the
+    round proper is cycle()) -- a simulator is built once and used for many batches, nothing may survive from one to the next."""
     from kyupy import logic, logic_sim
     sims = stim_mv.shape[1]
+    if warm is None and WARM['on']:
+        warm = warm_stimulus(stim_mv, m)
     with contextlib.redirect_stdout(io.StringIO()):
         s = logic_sim.LogicSim(c, sims=sims, m=m, c_reuse=reuse, strip_forks=strip)
+        if warm is not None:
+            WARM['count'] += 1
+            s.s[0] = logic.mv_to_bp(warm)
+            if cycles is None:
+                s.s_to_c(); s.c_prop(); s.c_to_s()
+            else:
+                s.cycle(2)
         s.s[0] = logic.mv_to_bp(stim_mv)
         if cycles is None:
             s.s_to_c()
